@@ -11,8 +11,6 @@ def plan(tier):
     G = C01.grammars()
     sh = []
     for gi, g in enumerate(G):
-        if getattr(g, 'mixed', False):
-            continue        # the statement of C10 is about head-uniform grammars
         T = len(g.tags)
         real = g.name.startswith(('en', 'ja'))
         for n in (1, 2, 3):
@@ -27,6 +25,12 @@ def plan(tier):
                 for base in (-1.0, 0.0):
                     sh.append(('native', gi, n, ('dev', sprops.V4, base, d, cap), dict(unary_penalty=0.5, nbest=k), J))
                 sh.append(('full', gi, n, ('dev', sprops.V4, -1.0, 1 if N > 12 else 2, 800 if tier == 'quick' else 8000), dict(unary_penalty=0.5, nbest=k), J))
+        for base in ('g1', 'g2'):
+            for n in (2, 3):
+                N = S.n_entries(n, T)
+                d = (2 if N <= 16 else 1) + (1 if tier == 'thorough' and N <= 30 else 0)
+                for k in (2, 5):
+                    sh.append(('native', gi, n, ('dev', sprops.V4, base, d, 4000 if tier == 'quick' else 60000), dict(unary_penalty=0.5, nbest=k), J))
         if not real and (tier == 'thorough' or T == 1):
             for k in (2, 4, 50):
                 sh.append(('native', gi, 4, ('dev', sprops.V4, -1.0, 2 if T == 1 else 1, 20000 if tier == 'quick' else 200000), dict(unary_penalty=0.5, nbest=k), J))
